@@ -45,6 +45,7 @@ type Exec struct {
 	stateN        int
 	Notes         map[string]int
 	endStates     int
+	returnCovers  map[*ssa.Function]int // thorough tier: returning paths already turned into cover obligations
 	Unsupported   map[string]int
 	curNonNil     bool
 	seq           int
